@@ -127,6 +127,15 @@ class Check(RuntimeCheck):
                 order.append(name); real[name] = [f"abort {sig}"]; model[name] = []
             return order, real, model, mism
 
+    def run(self, tier, seed, replay=None):
+        # the table of `MutexIsh::locked` call sites is regenerated from /repo/src on every run (C11_lock_bodies_closed)
+        ok, msg = engine.run_translator('translate_locks')
+        self._translator = msg
+        return super().run(tier, seed, replay)
+
+    def extra_assumptions(self):
+        return ["tools/translate_locks.py: " + getattr(self, '_translator', 'not run')]
+
     def extra(self, rep, tier, seed):
         """user code panicking where the mock calls into it less visibly (Debug of an argument while an error is rendered
         or a mismatch reported, Clone of a repeatable return value, PartialEq inside eq!) x topology; one process per cell"""
